@@ -147,6 +147,14 @@ def _jsonable(v):
         return repr(v)
 
 
+class PathTimeout(sx.Control):
+    pass
+
+
+def _on_alarm(signum, frame):
+    raise PathTimeout('one path ran longer than the per-path limit')
+
+
 def explore(fn, params, spec, *, forced=(), seed=0, depth_limit=None, deadline=None,
             known_entries=(), hname='', twin=False, collect_funcs=False, max_samples=2,
             concolic=False, stop_on_violation=True, stop_file=None):
@@ -156,6 +164,13 @@ def explore(fn, params, spec, *, forced=(), seed=0, depth_limit=None, deadline=N
                seed=seed, forced=forced, depth_limit=depth_limit, twin=twin,
                known=make_known_matcher(list(known_entries), hname))
     nontrivial_tags = set(spec.get('nontrivial', ()))
+    # per-path watchdog: code under test that never returns must not hang the check (reported as inconclusive)
+    import signal
+    import threading
+    path_limit = float(spec.get('path_timeout_s', os.environ.get('VERIF_PATH_TIMEOUT', 120)))
+    use_alarm = threading.current_thread() is threading.main_thread() and hasattr(signal, 'setitimer')
+    if use_alarm:
+        signal.signal(signal.SIGALRM, _on_alarm)
     fc = FuncCollector() if collect_funcs else None
     npaths_traced = 0
     while True:
@@ -171,8 +186,23 @@ def explore(fn, params, spec, *, forced=(), seed=0, depth_limit=None, deadline=N
         completed = False
         try:
             try:
-                fn(sp, **params)
+                if use_alarm:
+                    signal.setitimer(signal.ITIMER_REAL, path_limit, 0.5)   # re-fires: a raise inside __del__ is swallowed
+                try:
+                    fn(sp, **params)
+                finally:
+                    if use_alarm:
+                        signal.setitimer(signal.ITIMER_REAL, 0)
                 completed = True
+            except PathTimeout as e:
+                res['inconclusive'].append(dict(why='path timeout after %.0f s (the code under test or the harness does not '
+                                                    'terminate on this path)' % path_limit,
+                                                decisions=[_jsonable(d) for d in sp.decisions()]))
+                res['errors'].append('path timeout after %.0f s; decisions %r; trace tail %r' % (
+                    path_limit, sp.decisions()[-12:], sp.trace_lines()[-6:]))
+                res['exhausted'] = False
+                sp.end()
+                break
             except Violation as v:
                 v.assignment = sp.assignment()
                 try:
@@ -443,8 +473,8 @@ def run_property(pid, tier, seed):
         cuts = front.pop('cuts')
         front['cuts'] = []
         merge(agg, front)
-        if front['violations']:
-            continue
+        if front['violations'] or front['errors']:
+            continue        # a verdict or a harness error already: no point in exploring the shards
         rng_order = list(range(len(cuts)))
         import random
         random.Random(seed).shuffle(rng_order)
@@ -471,7 +501,7 @@ def run_property(pid, tier, seed):
                 r.pop('cuts', None)
                 r['cuts'] = []
                 merge(per[key], r)
-                if r['violations'] and not stop:
+                if (r['violations'] or r['errors']) and not stop:
                     stop = True
                     open(stop_file, 'w').close()
                     for other in futs:
